@@ -76,6 +76,40 @@ OBehaviour(c) ==
                             \o (IF c.model = "half space model" \/ c.varying THEN <<>>
                                 ELSE [i \in 1..3 |-> LET x == <<300, 600, 900>>[i] IN <<x * Km, 500 * Km, HM - Thick10(c, x) * 100, Thick10(c, x) * 100, 1600>>])]>>]
 
+(*************************** oceanic plates on the sphere *********************)
+(* An oblique ridge next to the +-180 meridian, the plate on the same or on the other side of it (so the nearest copy
+   of the ridge is the one shifted by 360 degrees), the spreading velocity given per ridge point and different at the
+   two ends.  The age of a point is its distance to the ridge over the velocity interpolated along the ridge: it is
+   positive off the ridge whatever the side, so the same envelope holds -- between top and bottom temperature,
+   not decreasing with depth, the top temperature attained at depth 0. *)
+RE == 6371000
+SphWorldOf(feats) == World(Spherical("begin segment"), feats) @@ ("gravity model" :> (("model" :> "uniform") @@ ("magnitude" :> G))) @@ ("surface temperature" :> 273)
+OSphCase == [model : {"half space model", "plate model"}, grad : {"up", "down", "flat"}, ridge : {"east", "west"}, plate : {"same", "across"}]
+(* ridge "east": at longitudes 165..175; "west": the mirror image at -165..-175 *)
+SLon(c, lon) == IF c.ridge = "east" THEN lon ELSE -lon
+OSphRidge(c) == << << <<SLon(c, 165), -10>>, <<SLon(c, 175), 10>> >> >>
+OSphVel(c) == CASE c.grad = "up" -> <<Dec(2, -2), Dec(4, -2)>> [] c.grad = "down" -> <<Dec(4, -2), Dec(2, -2)>> [] OTHER -> <<Dec(3, -2), Dec(3, -2)>>
+(* plate "across": longitudes 181..199 written in (-180, 180], i.e. -179..-161 for the eastern ridge; "same": 140..160 *)
+PlateLons(c) == IF c.plate = "across" THEN <<SLon(c, -179), SLon(c, -161)>> ELSE <<SLon(c, 140), SLon(c, 160)>>
+OSphDoc(c) ==
+  LET l == PlateLons(c)
+      lo == IF l[1] < l[2] THEN l[1] ELSE l[2]   hi == IF l[1] < l[2] THEN l[2] ELSE l[1]
+      m ==    ("model" :> c.model) @@ ("min depth" :> 0) @@ ("max depth" :> 120 * Km) @@ ("top temperature" :> 273) @@ ("bottom temperature" :> 1600)
+           @@ ("spreading velocity" :> << <<0, <<OSphVel(c)>>>> >>) @@ ("ridge coordinates" :> OSphRidge(c))
+  IN SphWorldOf(<<Area("oceanic plate", "f", << <<lo, -9>>, <<hi, -9>>, <<hi, 9>>, <<lo, 9>> >>, 0, 120 * Km, <<m>>, <<>>, <<>>, <<>>)>>)
+OSphProbes(c) == LET l == PlateLons(c)  a == IF l[1] < l[2] THEN l[1] ELSE l[2] IN
+                 << <<a + 2, 0>>, <<a + 9, 3>>, <<a + 14, -4>>, <<a + 17, 6>>, <<a + 5, -7>> >>
+OSphRows(c) == LET ps == OSphProbes(c) IN
+   FlattenSeq([k \in 1..Len(ps) |-> [i \in 1..13 |-> <<RE - 10 * Km * (i - 1), ps[k][1], ps[k][2], 10 * Km * (i - 1), k>>]])
+OSphBehaviour(c) ==
+  [id |-> <<"envelope-ocean-sphere", c>>, labels |-> <<"envelope", c.model, "sphere", "plate-" \o c.plate, "velocity-" \o c.grad>>,
+   steps |-> << [op |-> "create", h |-> 1, wb |-> OSphDoc(c)],
+                [op |-> "qtable", h |-> 1, dim |-> 3, sph |-> TRUE, props |-> <<PT>>, rowlet |-> << <<"lo", 273>>, <<"hi", 1600>> >>,
+                 checks |-> <<[k |-> "between", at |-> 0, col |-> 5, col2 |-> 6, slack |-> Dec(1, -9)], [k |-> "monotone", at |-> 0, col |-> 4, dir |-> "up", slack |-> Dec(1, -9)]>>,
+                 rows |-> OSphRows(c)],
+                [op |-> "qtable", h |-> 1, dim |-> 3, sph |-> TRUE, props |-> <<PT>>, checks |-> <<[k |-> "tol", at |-> 0, col |-> 4, rel |-> Dec(1, -6), abs |-> Dec(1, -6)]>>,
+                 rows |-> [k \in 1..Len(OSphProbes(c)) |-> <<RE, OSphProbes(c)[k][1], OSphProbes(c)[k][2], 0, 273>>]] >>]
+
 (*************************** slabs ********************************************)
 SModels == {"mass conserving", "plate model"}
 SCase == [model : SModels, ref : {"half space model", "plate model"}, dip : {30, 60}, vel : {2, 5, 10}, age : {1, 4}]
@@ -104,7 +138,7 @@ SBehaviour(c) ==
                  checks |-> <<[k |-> "between", at |-> 0, col |-> 4, col2 |-> 5, slack |-> Dec(1, -9)]>>, rows |-> SRows] >>]
 
 VARIABLE case
-Init == case \in ({"ocean"} \X OCase) \cup ({"slab"} \X {c \in SCase : SValid(c)})
+Init == case \in ({"ocean"} \X OCase) \cup ({"slab"} \X {c \in SCase : SValid(c)}) \cup ({"ocean-sphere"} \X OSphCase)
 Next == UNCHANGED case
-Emit == PrintT(<<"B", ToJson(IF case[1] = "ocean" THEN OBehaviour(case[2]) ELSE SBehaviour(case[2]))>>)
+Emit == PrintT(<<"B", ToJson(CASE case[1] = "ocean" -> OBehaviour(case[2]) [] case[1] = "slab" -> SBehaviour(case[2]) [] OTHER -> OSphBehaviour(case[2]))>>)
 =============================================================================
